@@ -5,7 +5,7 @@
        subsets: C13_Order, C13_OwnFirst, C13_Once, C13_Replaced in every state, and the
        canonical walk (the oracle of the next pass) is a behaviour of the machine;
 (S->I) quick: the scenarios of that very TLC run (shape x processor table x replacement
-       subset, seeded sample of 2400), thorough: every shape with <= 5 objects (seeded sample
+       subset, seeded sample of 1800), thorough: every shape with <= 5 objects (seeded sample
        of 6000) x seeded tables; plus seeded-random forests of <= 9 objects.  Each is rendered
        as model text and loaded by the real textX with recording processors on the rules of
        the table (alternately with user classes); the recorded call sequence and the final
@@ -139,7 +139,7 @@ def run(rep):
     rep.rule = ("S->I: containment shapes TLC enumerates for the carrier grammar (objects of the rules Model, Import, "
                 "Pkg, Grp, Box, Cell, DefA, DefB, Use, UseList; attributes typed with the abstract rules Elem and Def "
                 "and with concrete rules; single and list attributes; 1-2 files) x processor tables x replacement "
-                "subsets (quick: the scenario universe of the TLC run itself, <= 3 objects, seeded sample of 2400; "
+                "subsets (quick: the scenario universe of the TLC run itself, <= 3 objects, seeded sample of 1800; "
                 "thorough: shapes of <= 5 objects, seeded sample of 6000, x 2 seeded tables), plus seeded-random "
                 "forests of <= 9 objects, alternately with user classes; call sequence and final containment contents "
                 "compared with TLC's evaluation of LoaderProc. I->S: seeded-random forests of <= 14 objects in 1-3 "
@@ -159,8 +159,8 @@ def run(rep):
     if quick:
         scns = _mc(rep, 3, 2, emit=True)
         plan = [(s, [(s["procs"], s["repl"])]) for s in scns]
-        if len(plan) > 2400:
-            plan = rng.sample(plan, 2400)
+        if len(plan) > 1800:
+            plan = rng.sample(plan, 1800)
         rep.exhaustive = len(plan) == len(scns)
         rep.bounds["scenarios"] = dict(enumerated=len(scns), replayed=len(plan), max_objs=3,
                                        tables="all tables for <= 2 objects; for 3 objects every replacement subset "
@@ -177,7 +177,7 @@ def run(rep):
         rep.bounds["scenarios"] = dict(enumerated_shapes=total, replayed_shapes=len(shapes), max_objs=5,
                                        tables_per_shape=2)
     # bigger seeded-random forests for the same comparison
-    nrand = 300 if quick else 3000
+    nrand = 250 if quick else 3000
     for _ in range(nrand):
         s = D.random_scenario(rng, max_objs=rng.randint(4, 9), nfiles=rng.choice([1, 1, 2]), max_postpone=1)
         plan.append((s, _tables(rng, s, 2)[1:]))
@@ -194,7 +194,7 @@ def run(rep):
                 batch.append((case, procs, repl, user, obs))
         _judge_batch(rep, batch)
         # (I->S)
-        ntr = 80 if quick else 800
+        ntr = 60 if quick else 800
         items, meta = [], []
         for k in range(ntr):
             s = D.random_scenario(rng, max_objs=rng.randint(6, 14), nfiles=rng.choice([1, 1, 2, 3]),
